@@ -32,6 +32,7 @@ import (
 	"os"
 	"path/filepath"
 	"sort"
+	"strconv"
 	"strings"
 	"time"
 
@@ -197,6 +198,7 @@ func genC07RecvFiles(c *ctx) {
 	c.count(fmt.Sprintf("tree:validates-json=%v,validates-plain=%v", chkU, chkC))
 
 	n := c.pick(400, 5000)
+	nser := c.pick(8, 60)
 	pool := c.c09Pool()[:6]
 	for ci := 0; ci < n; ci++ {
 		root := work
@@ -208,6 +210,39 @@ func genC07RecvFiles(c *ctx) {
 		if c.rng.Intn(4) == 0 {
 			kind = 0
 		}
+		// series sessions: the destination holds name, name.0 .. name.999 for the first root of the
+		// session - all of them (recvFiles must fail, report nothing, touch nothing) or all but one
+		// (the gap is the name reported)
+		forceName, seriesGap := "", -1
+		if ci < nser {
+			kind = 0
+			forceName = pool[ci%3]
+			if ci >= nser/2 {
+				seriesGap = []int{0, 1, 9, 10, 99, 100, 998, 999, c.rng.Intn(1000)}[c.rng.Intn(9)]
+				if ci == nser/2 {
+					seriesGap = 999
+				}
+				c.count("pre:series-with-one-gap")
+			} else {
+				c.count("pre:full-series")
+			}
+			if c.rng.Intn(3) == 0 {
+				os.Mkdir(filepath.Join(dest, forceName), 0755)
+			} else {
+				os.WriteFile(filepath.Join(dest, forceName), []byte("series-base"), 0644)
+			}
+			lastDir := c.rng.Intn(2) == 0
+			for k := 0; k < 1000; k++ {
+				if k == seriesGap {
+					continue
+				}
+				if p := filepath.Join(dest, forceName+"."+strconv.Itoa(k)); k == 999 && lastDir {
+					os.Mkdir(p, 0755)
+				} else {
+					os.WriteFile(p, []byte("s"), 0644)
+				}
+			}
+		}
 		for _, p := range c.c09PreState(kind) {
 			full := filepath.Join(dest, p.rel)
 			if p.dir {
@@ -218,7 +253,7 @@ func genC07RecvFiles(c *ctx) {
 			}
 		}
 		pre := c09Snapshot(root)
-		overwrite := c.rng.Intn(3) == 0
+		overwrite := c.rng.Intn(3) == 0 && forceName == ""
 		plain := c.rng.Intn(4) == 0
 		var recs []c07rRec
 		desc := ""
@@ -226,6 +261,9 @@ func genC07RecvFiles(c *ctx) {
 			k := 1 + c.rng.Intn(5)
 			for i := 0; i < k; i++ {
 				r := c07rRec{raw: pool[c.rng.Intn(len(pool))], payload: c.c07rPayload("P")}
+				if i == 0 && forceName != "" {
+					r.raw = forceName
+				}
 				recs = append(recs, r)
 			}
 			desc = "plain"
@@ -238,6 +276,12 @@ func genC07RecvFiles(c *ctx) {
 					shape = 6
 				}
 				name := pool[c.rng.Intn(len(pool))]
+				if i == 0 && forceName != "" {
+					name = forceName
+					if shape >= 5 {
+						shape = c.rng.Intn(5)
+					}
+				}
 				id := i
 				if i > 0 && c.rng.Intn(8) == 0 {
 					id = i - 1 // a second source with the path id of the previous one
@@ -294,6 +338,9 @@ func genC07RecvFiles(c *ctx) {
 			margs = append(margs, c07rRecArg(r))
 		}
 		key := fmt.Sprintf("ow=%v,plain=%v,pre=%s,recs=%s", overwrite, plain, c07rTopLevel(pre, nil), strings.Join(margs, ","))
+		if forceName != "" {
+			key = fmt.Sprintf("ow=%v,plain=%v,series=%s,gap=%d,recs=%s", overwrite, plain, forceName, seriesGap, strings.Join(margs, ","))
+		}
 		if len(key) > 900 {
 			key = key[:900]
 		}
@@ -419,6 +466,7 @@ type c07eCase struct {
 	viol   []string
 	shown  [][]string
 	nroots int
+	series int // -2: none; -1: the complete series of the first source exists; k >= 0: all but name.k
 }
 
 // sources: a mix of empty directories, directory-only trees, normal trees and files
@@ -454,14 +502,25 @@ func c07eSources(rng *rand.Rand, dir string, directory bool) []string {
 func genC07NamesE2E(c *ctx) {
 	work, _ := os.MkdirTemp("", "c07names_e2e_")
 	defer os.RemoveAll(work)
-	n := c.pick(24, 240)
+	nreg := c.pick(24, 240)
+	n := nreg + c.pick(8, 48)
 	protos := []int{0, 2, 3, 4}
 	cases := make([]*c07eCase, n)
 	for i := range cases {
-		ec := &c07eCase{seed: c.rng.Int63(), twice: c.rng.Intn(2) == 0}
+		ec := &c07eCase{seed: c.rng.Int63(), twice: c.rng.Intn(2) == 0, series: -2}
 		ec.cfg = e2eCfg{upload: i%2 == 0, proto: protos[(i/2)%4], directory: i%8 != 7, overwrite: (i/8)%3 == 2,
 			binary: c.rng.Intn(2) == 0, timeout: 10, deadline: 40 * time.Second, quiet: true}
-		ec.desc = fmt.Sprintf("%s twice=%v seed=%d", describeCfg(ec.cfg), ec.twice, ec.seed)
+		if i >= nreg {
+			// the destination holds name, name.0 .. name.999 of the FIRST source: complete (-1: the
+			// transfer must fail and change nothing) or with one gap (the gap is the name shown)
+			j := i - nreg
+			ec.cfg.overwrite, ec.twice, ec.cfg.directory = false, false, j%3 != 2
+			ec.series = -1
+			if j%8 >= 6 {
+				ec.series = []int{0, 9, 10, 100, 998, 999}[c.rng.Intn(6)]
+			}
+		}
+		ec.desc = fmt.Sprintf("%s twice=%v series=%d seed=%d", describeCfg(ec.cfg), ec.twice, ec.series, ec.seed)
 		cases[i] = ec
 	}
 	parallelDo(n, 8, func(i int) {
@@ -491,6 +550,16 @@ func genC07NamesE2E(c *ctx) {
 				}
 			}
 		}
+		if ec.series >= -1 {
+			base := filepath.Base(tops[0])
+			os.RemoveAll(filepath.Join(dest, base))
+			os.WriteFile(filepath.Join(dest, base), []byte("series-base"), 0644)
+			for k := 0; k < 1000; k++ {
+				if k != ec.series {
+					os.WriteFile(filepath.Join(dest, base+"."+strconv.Itoa(k)), []byte("s"), 0644)
+				}
+			}
+		}
 		rounds := 1
 		if ec.twice && !ec.cfg.overwrite {
 			rounds = 2
@@ -508,6 +577,24 @@ func genC07NamesE2E(c *ctx) {
 				shown = r.termOut + r.serverOut
 			}
 			names, ok := parseSaved(shown)
+			if ec.series == -1 {
+				// exhausted: no success, nothing that existed changed
+				if ok {
+					ec.viol = append(ec.viol, fmt.Sprintf("name, name.0 .. name.999 of %q all exist and the transfer reports success: shown as saved %q",
+						filepath.Base(tops[0]), names))
+				}
+				if r.hung {
+					ec.viol = append(ec.viol, "hung on an exhausted series")
+				}
+				after, _ := snapshotTree(dest)
+				for rel, e := range before {
+					if a, ok := after[rel]; !ok || a != e {
+						ec.viol = append(ec.viol, fmt.Sprintf("exhausted series: pre-existing %q changed", rel))
+						break
+					}
+				}
+				return
+			}
 			if !ok || r.hung || !r.clientDone || !r.serverExited || (ec.cfg.upload && r.uploadErr != nil) {
 				ec.viol = append(ec.viol, fmt.Sprintf("no-success round %d: hung=%v clientDone=%v serverExited=%v uploadErr=%v saved=%v tail=%q",
 					round, r.hung, r.clientDone, r.serverExited, r.uploadErr, ok, tailStr(r.termOut+"|"+r.serverOut, 200)))
@@ -547,6 +634,9 @@ func genC07NamesE2E(c *ctx) {
 						ec.viol = append(ec.viol, fmt.Sprintf("round %d: new entry %q not shown as saved (%q)", round, nt, names))
 					}
 				}
+			}
+			if ec.series >= 0 && len(names) > 0 && names[0] != filepath.Base(tops[0])+"."+strconv.Itoa(ec.series) {
+				ec.viol = append(ec.viol, fmt.Sprintf("the only free name of the series is %s.%d, shown %q", filepath.Base(tops[0]), ec.series, names[0]))
 			}
 			if len(names) != len(tops) {
 				ec.viol = append(ec.viol, fmt.Sprintf("round %d: %d sources, %d names shown (%q)", round, len(tops), len(names), names))
